@@ -197,6 +197,26 @@ mod finding_tests {
         assert_eq!(Decimal::MIN.checked_mul(Decimal::ONE), Some(Decimal::MIN), "FINDING-PRESENT: MIN * 1 reported as overflow");
     }
 
+    /// C27 fixed finding (regression replay on the real crate): a sign inside the fractional part is not a numeral
+    #[test]
+    fn c27_from_str_rejects_sign_in_fraction() {
+        use core::str::FromStr;
+        for t in ["1.-5", "1.+5", "-1.-5", "0.-0", "0.+0"] {
+            assert!(Decimal::from_str(t).is_err(), "Decimal::from_str({:?}) accepted: {:?}", t, Decimal::from_str(t));
+            assert!(PreciseDecimal::from_str(t).is_err(), "PreciseDecimal::from_str({:?}) accepted", t);
+        }
+        assert_eq!(Decimal::from_str("+1.5").unwrap(), Decimal::from_str("1.5").unwrap());
+        assert_eq!(Decimal::from_str("-0.5").unwrap().checked_neg().unwrap(), Decimal::from_str("0.5").unwrap());
+    }
+
+    #[test]
+    fn c27_probe_sign_in_fraction() {
+        use core::str::FromStr;
+        for t in ["1.-5", "1.+5", "-1.-5", "0.-0", "+1.5", "1.5", "-0.5", "1.000000000000000000", "1.0000000000000000000", "1.", ".5", "1.+", "--1", "1e3"] {
+            println!("{:?} -> {:?}", t, Decimal::from_str(t).map(|d| d.to_string()));
+        }
+    }
+
     #[test]
     fn c29_from_str_non_ascii_does_not_panic() {
         let r = std::panic::catch_unwind(|| UtcDateTime::from_str("2023-01-27T12:17:2\u{e9}Z").is_ok());
